@@ -380,11 +380,16 @@ func Run(cs Case, c *vrt.Ctx) {
 	sort.Strings(tags)
 	c.Sample(map[string]any{"op": cs.Op, "path": cs.Path.String(), "data": beforeCanon, "selected": sel})
 
-	if op == "set" && countKind(cs.Path, "descent") >= 2 {
-		if _, isMap := wx.Dec(cs.Val).(map[string]any); isMap {
+	if op == "set" && countKind(cs.Path, "descent") >= 1 {
+		isCont := false
+		switch wx.Dec(cs.Val).(type) {
+		case map[string]any, []any:
+			isCont = true
+		}
+		if isCont {
 			// known finding C13-K4: never terminates (the inserted map is descended into and
 			// receives itself as a member); not executed, counted
-			c.Fail("hang-by-construction", "jp."+cs.Op, desc+": Set of a map value through two descents does not terminate (not executed)", "set-double-descent-map-value")
+			c.Fail("hang-by-construction", "jp."+cs.Op, desc+": Set of a container value through a descent can fail to terminate (not executed)", "set-descent-container-value")
 			return
 		}
 	}
@@ -634,17 +639,18 @@ var classifiers = []vrt.Classifier{
 	{ID: "C13-K2", Match: func(d vrt.Disc, c *vrt.Ctx) bool {
 		return has(d, "filter-uses-root") && (strings.HasPrefix(d.Where, "jp.modify") || strings.HasPrefix(d.Where, "jp.remove"))
 	}},
-	// C13-K4: Set of a map value through two consecutive descents ($....a) never returns: the map
-	// is inserted by reference, descended into, and receives itself as member "a". The harness
-	// does not execute such a case, it only counts it.
-	{ID: "C13-K4", Match: func(d vrt.Disc, c *vrt.Ctx) bool { return has(d, "set-double-descent-map-value") }},
+	// C13-K4: Set of a container value through a descent can fail to return: the value is
+	// inserted by reference and then descended into ($....a with a map receives itself as member
+	// "a"; $....* with [1] nests forever). The harness does not execute Set with a descent and a
+	// container value, it only counts such cases.
+	{ID: "C13-K4", Match: func(d vrt.Disc, c *vrt.Ctx) bool { return has(d, "set-descent-container-value") }},
 	// C13-K5: Set returns nil without doing anything when a child step meets an array or scalar
 	// (or an index step meets a map) on simple data, instead of reporting the impossible request.
 	{ID: "C13-K5", Match: func(d vrt.Disc, c *vrt.Ctx) bool { return d.Kind == "set-silent-noop" }},
 	// C13-K6: on gen data Set/Del (and One forms) report "can not follow ..." errors for
 	// situations that are silently skipped on simple data, so error-ness differs between the two.
 	{ID: "C13-K6", Match: func(d vrt.Disc, c *vrt.Ctx) bool {
-		return d.Kind == "gen-error-differs" && strings.Contains(d.Detail, "simple err=<nil> gen err=can not follow")
+		return d.Kind == "gen-error-differs" && strings.Contains(d.Detail, "simple err=<nil> gen err=can not ")
 	}},
 	// C13-K3: a *One form can return without changing anything although the path selects a
 	// location (it stops at the first candidate it visits, e.g. the first union member or the
